@@ -67,7 +67,8 @@ KeysOf(h, norm(_)) == {norm(h[i].name) : i \in 1..Len(h)}
 \* ConvertProtoHeaderToMetadata: keys up to case, every value, in order, -bin decoded once
 HdrToMD(h) == [k \in KeysOf(h, Lower) |-> ValsFor(h, k, Lower, WireToApi)]
 \* ConvertMetadataToProtoHeader: one entry per key (entry order unspecified: a set), -bin
-\* encoded once; the source metadata is not changed
+\* encoded once (the statement is about the returned list; what happens to the source map is
+\* not constrained)
 MDToHdr(md) == {[name |-> k, vals |-> [j \in 1..Len(md[k]) |-> ApiToWire(k, md[k][j])]] : k \in DOMAIN md}
 \* AppendToOutgoingContext: what metadata.FromOutgoingContext shows afterwards
 Outgoing(md0, h) == [k \in (DOMAIN md0) \cup KeysOf(h, Lower) |-> Get(md0, k) \o ValsFor(h, k, Lower, WireToApi)]
@@ -79,17 +80,6 @@ AddHdr(dest, h) == [k \in (DOMAIN dest) \cup KeysOf(h, Canon) |-> Get(dest, k) \
 AddTrl(dest, h) == [k \in (DOMAIN dest) \cup KeysOf(h, Exact) |-> Get(dest, k) \o ValsFor(h, k, Exact, Same)]
 \* ConvertToProtoHeader (http.Header / url.Values -> header list): one entry per key
 MapToHdr(m) == {[name |-> k, vals |-> m[k]] : k \in DOMAIN m}
-
-\* the known defects of the unchanged tree, as operators, so that a mismatch can be classified
-\* (a different wrong answer is still a violation):
-Known_LastWins(h) ==                       \* ConvertProtoHeaderToMetadata: asMetadata[key] = vals
-  [k \in KeysOf(h, Lower) |->
-     LET last == CHOOSE i \in 1..Len(h) : Lower(h[i].name) = k /\ \A j \in (i+1)..Len(h) : Lower(h[j].name) # k
-     IN [j \in 1..Len(h[last].vals) |-> WireToApi(k, h[last].vals[j])]]
-Known_OutgoingNoDecode(md0, h) ==          \* AppendToOutgoingContext: -bin values not decoded
-  [k \in (DOMAIN md0) \cup KeysOf(h, Lower) |-> Get(md0, k) \o ValsFor(h, k, Lower, Same)]
-Known_SourceEncodedInPlace(md) ==          \* ConvertMetadataToProtoHeader writes into src
-  [k \in DOMAIN md |-> [j \in 1..Len(md[k]) |-> ApiToWire(k, md[k][j])]]
 
 \* an arbitrary listing of a set of entries (used to state round trips through a set)
 RECURSIVE SomeSeq(_)
@@ -201,7 +191,4 @@ Marshal(c, m) == [fmt |-> c, body |-> m]
 Unmarshal(c, x) == IF x.fmt # c THEN [r |-> "reject", why |-> "format"]
                    ELSE IF HasUnknown(x.body) THEN [r |-> "reject", why |-> "unknown field"]
                    ELSE [r |-> "ok", m |-> x.body]
-\* the known defects of the unchanged tree, for classification
-Known_ProtoMarshalsJSON(c, m) == [fmt |-> "json", body |-> m]
-Known_TopLevelOnly(m) == \E i \in 1..Len(m.ents) : m.ents[i].f = "?"
 =============================================================================
